@@ -7,6 +7,7 @@
 
 pub mod astwalk;
 pub mod drive;
+pub mod fuzzrun;
 pub mod gates;
 pub mod gen_syntax;
 pub mod gen_valid;
@@ -99,6 +100,36 @@ pub fn cli_main() {
             let text = std::fs::read_to_string(&rest[0]).expect("read");
             let r = ironplc_parser::parse_program(&text, &ironplc_dsl::core::FileId::from_string(&rest[0]), &Default::default());
             println!("{:#?}", r);
+            0
+        }
+        "census" => {
+            // debug aid: words of the text that are the span of no Id of the parsed library
+            let text = std::fs::read_to_string(&rest[0]).expect("read");
+            match ironplc_parser::parse_program(&text, &ironplc_dsl::core::FileId::from_string(&rest[0]), &Default::default()) {
+                Err(d) => println!("rejected: {} at {}..{}", d.primary.message, d.primary.location.start, d.primary.location.end),
+                Ok(lib) => {
+                    let ids = astwalk::collect_ids(&lib);
+                    let starts: std::collections::HashSet<usize> = ids.iter().map(|x| x.1).collect();
+                    let b = text.as_bytes();
+                    let mut i = 0;
+                    let mut missing = vec![];
+                    while i < b.len() {
+                        if b[i].is_ascii_alphabetic() || b[i] == b'_' {
+                            let s0 = i;
+                            while i < b.len() && (b[i].is_ascii_alphanumeric() || b[i] == b'_') {
+                                i += 1;
+                            }
+                            let w = &text[s0..i];
+                            if !starts.contains(&s0) && w.chars().any(|c| c.is_ascii_lowercase()) {
+                                missing.push(w.to_string());
+                            }
+                        } else {
+                            i += 1;
+                        }
+                    }
+                    println!("accepted; lower-case words that are no Id: {:?}", missing);
+                }
+            }
             0
         }
         id => {
